@@ -1,9 +1,97 @@
 import Pose.Wire
 import Pose.Driver.Lie
-/-! Driver ops for C11. -/
+import Pose.Model.Convert
+/-!
+# Driver ops for C11 (matrix / Euler conversions)
+
+* `c11.from_matrix <SO3|SE3|Sim3|RxSO3> <33|34|44> <check 0|1> <n> <rtol> <atol> nums…`
+  `n` items, each `9 | 12 | 16` numbers row-major → `ok` flattened storage of the `n` results, or
+  `err notOrthogonal | detNotOne | notFullRank | nonFinite`.  The determinant kernel is instantiated by the
+  cofactor formula `Mat3.det` (its contract *is* that formula; the harness checks `torch.det` against
+  `c11.det` separately).
+* `c11.region <atol> 9 nums`  → index `0..3` of the selected candidate and the four `t_i`
+* `c11.warn <lay> <check> <rtol> <atol> nums…` → `1` iff the 4×4 last-row warning is issued
+* `c11.det 9 nums`, `c11.euler2SO3 r p y`, `c11.euler <eps> x y z w` (→ roll pitch yaw flag),
+  `c11.eulermat r p y` (→ 9 numbers of `Rz·Ry·Rx`)
+-/
 namespace PP.Driver
 open PP Wire
 
-def opsC11 : List (String × Handler) := []
+def m3 (l : List B) (o : Nat := 0) : Mat3 B := ⟨v3 l o, v3 l (o+3), v3 l (o+6)⟩
+
+def layOf (s : String) : Except String (Layout × Nat × Nat) :=
+  match s with
+  | "33" => .ok (.m33, 3, 3)
+  | "34" => .ok (.m34, 3, 4)
+  | "44" => .ok (.m44, 4, 4)
+  | _ => .error s!"bad-layout:{s}"
+
+def tyOf (s : String) : Except String GTy :=
+  match s with
+  | "SO3" => .ok .SO3
+  | "SE3" => .ok .SE3
+  | "Sim3" => .ok .Sim3
+  | "RxSO3" => .ok .RxSO3
+  | _ => .error s!"bad-type:{s}"
+
+/-- split `xs` into `n` chunks of length `len` -/
+def chunks (len : Nat) : Nat → List B → List (List B)
+  | 0, _ => []
+  | n+1, xs => xs.take len :: chunks len n (xs.drop len)
+
+def toRows (cols : Nat) (rows : Nat) (xs : List B) : DMat B :=
+  (List.range rows).map fun i => (xs.drop (i * cols)).take cols
+
+def matIn (lay : Layout) (rows cols : Nat) (xs : List B) : MatIn B := MatIn.ofDMat lay (toRows cols rows xs)
+
+def opsC11 : List (String × Handler) := [
+  ("c11.from_matrix", fun ts => do
+      match ts with
+      | ty :: lay :: chk :: n :: rest =>
+        let ty ← tyOf ty
+        let (lay, rows, cols) ← layOf lay
+        let chk ← nat chk
+        let n ← nat n
+        let xs ← nums rest
+        match xs with
+        | rtol :: atol :: data =>
+          if data.length != n * rows * cols then throw s!"arity:{data.length}" else
+          let ms := (chunks (rows * cols) n data).map (matIn lay rows cols)
+          match fromMatrixBatch ty Mat3.det (chk == 1) rtol atol ms with
+          | .ok out => return fmt out.flatten
+          | .error e => throw e.name
+        | _ => throw "arity"
+      | _ => throw "arity"),
+  ("c11.region", numeric fun xs =>
+      match xs with
+      | atol :: rest =>
+        if rest.length != 9 then .error "arity" else
+        let T := (m3 rest).transpose
+        let r := mat2SO3Region atol T
+        .ok [BigF.ofInt r, (cand0 T).t, (cand1 T).t, (cand2 T).t, (cand3 T).t]
+      | _ => .error "arity"),
+  ("c11.warn", fun ts => do
+      match ts with
+      | lay :: chk :: rest =>
+        let (lay, rows, cols) ← layOf lay
+        let chk ← nat chk
+        let xs ← nums rest
+        match xs with
+        | rtol :: atol :: data =>
+          if data.length != rows * cols then throw "arity" else
+          return (if lastRowWarn (chk == 1) rtol atol (matIn lay rows cols data) then "1:0" else "0:0")
+        | _ => throw "arity"
+      | _ => throw "arity"),
+  ("c11.det", numeric fun xs => if xs.length != 9 then .error "arity" else .ok [(m3 xs).det]),
+  ("c11.euler2SO3", numeric fun xs => if xs.length != 3 then .error "arity" else .ok (euler2SO3 (v3 xs)).toList),
+  ("c11.euler", numeric fun xs =>
+      match xs with
+      | eps :: rest =>
+        if rest.length != 4 then .error "arity" else
+        let p := qt rest
+        .ok ((SO3euler eps p).toList ++ [if eulerRegular eps p then BigF.ofInt 1 else BigF.ofInt 0, (eulerT p).t2])
+      | _ => .error "arity"),
+  ("c11.eulermat", numeric fun xs => if xs.length != 3 then .error "arity" else .ok (eulerMat (v3 xs)).toList)
+]
 
 end PP.Driver
